@@ -732,6 +732,27 @@ func (sc *specCtx) evalCall(e *CallE) Val {
 		a := args(1)
 		sc.want(a[0], SStr, e)
 		return intVal(app("str_runes", a[0].T))
+	case "unboxSlice":
+		a := args(1)
+		v := Val{T: app("unbox_Slice", a[0].T), S: SSlice}
+		// element type U: views of []V
+		if sc.fc.fn != nil {
+			if tps := sc.fc.fn.TypeParams(); tps != nil && tps.Len() > 0 {
+				v.GT = types.NewSlice(tps.At(tps.Len() - 1))
+			}
+		}
+		return v
+	case "implementsiface":
+		// implementsiface(x, "pkg.Iface[V]"): x is non-nil and its dynamic type implements the interface
+		if len(e.Args) != 2 {
+			specFail("implementsiface(x, \"Iface\")")
+		}
+		lit, ok := e.Args[1].(*StrLit)
+		if !ok {
+			specFail("implementsiface(x, \"Iface\"): string literal expected")
+		}
+		x := sc.eval(e.Args[0])
+		return boolVal(and(not(eq(x.T, "nil")), app("implements", app("dyntype", x.T), fmt.Sprint(sc.fc.e.typeID("iface:"+lit.Val)))))
 	case "unboxStr":
 		a := args(1)
 		return Val{T: app("unbox_Str", a[0].T), S: SStr}
@@ -836,9 +857,26 @@ func (sc *specCtx) evalCall(e *CallE) Val {
 		}
 		id, ok := e.Args[1].(*Ident)
 		if !ok {
+			if tt, ok2 := sc.typeExprTerm(e.Args[1]); ok2 {
+				x := sc.eval(e.Args[0])
+				return boolVal(and(not(eq(x.T, "nil")), eq(app("dyntype", x.T), tt)))
+			}
 			specFail("typeis(x, Type): type name expected")
 		}
 		x := sc.eval(e.Args[0])
+		if tt, ok := sc.typeExprTerm(e.Args[1]); ok {
+			return boolVal(and(not(eq(x.T, "nil")), eq(app("dyntype", x.T), tt)))
+		}
+		// a type parameter of the function under verification, or a named type of the package
+		if sc.fc.fn != nil {
+			if tps := sc.fc.fn.TypeParams(); tps != nil {
+				for i := 0; i < tps.Len(); i++ {
+					if tps.At(i).Obj().Name() == id.Name {
+						return boolVal(eq(app("dyntype", x.T), sc.fc.typeTerm(sc.st, tps.At(i))))
+					}
+				}
+			}
+		}
 		return boolVal(eq(app("dyntype", x.T), fmt.Sprint(sc.fc.e.typeID(sc.pkg+"."+id.Name))))
 	case "held":
 		a := args(1)
@@ -941,4 +979,44 @@ func (fc *fnCtx) zeroByName(st *State, name string) Val {
 	}
 	st.decls = append(st.decls, d)
 	return Val{T: n, S: SU}
+}
+
+// typeExprTerm translates a type expression of the contract language (a type parameter name,
+// sliceof(T), mapof2(K, V), or a string literal naming a basic type) into the dynamic-type tag
+// the engine uses for the corresponding Go type.
+func (sc *specCtx) typeExprTerm(e Expr) (string, bool) {
+	switch x := e.(type) {
+	case *StrLit:
+		return fmt.Sprint(sc.fc.e.typeID(x.Val)), true
+	case *Ident:
+		if sc.fc.fn != nil {
+			if tps := sc.fc.fn.TypeParams(); tps != nil {
+				for i := 0; i < tps.Len(); i++ {
+					if tps.At(i).Obj().Name() == x.Name {
+						return sc.fc.typeTerm(sc.st, tps.At(i)), true
+					}
+				}
+			}
+		}
+		return "", false
+	case *CallE:
+		switch x.Fun {
+		case "sliceof":
+			if len(x.Args) == 1 {
+				if t, ok := sc.typeExprTerm(x.Args[0]); ok {
+					return fmt.Sprintf("(+ 1000001 (* 4 %s))", t), true
+				}
+			}
+		case "mapof2":
+			if len(x.Args) == 2 {
+				k, ok1 := sc.typeExprTerm(x.Args[0])
+				v, ok2 := sc.typeExprTerm(x.Args[1])
+				if ok1 && ok2 {
+					sc.fc.declareFun(sc.st, "tid_map", "(Int Int) Int")
+					return app("tid_map", k, v), true
+				}
+			}
+		}
+	}
+	return "", false
 }
